@@ -139,6 +139,7 @@ Theorem eviction_eligible cs s s' lg x :
             (t_job c = t_job (a_task r) /\ t_prio c < t_prio (a_task r))
         | KProp => is_reclaim (a_kind r) = true -> c ∈ prop_vote eps E' (a_pre r) (a_cands r)
         | KCap => is_reclaim (a_kind r) = true -> c ∈ cap_vote eps E' (a_pre r) (a_task r) (a_cands r)
+        | KDrf => is_reclaim (a_kind r) = false -> c ∈ drf_vote eps (a_pre r) (a_task r) (a_cands r)
         end.
 Proof.
   intros Hcl Hok Hr Hx Hnx.
